@@ -169,7 +169,8 @@ def space_ctor(cls, dim, method, border, rar=False):
             canary = zreal(ob.elem(kf, 1, 3)) == xmax            # ymax facet pinned at the wrong bound
         return done(name, goals, pre, ex, t0, ax, canary)
     return FnObligation(name, run, [DG + f"{cls}.__post_init__", DG + "CubicMeshPDEStatio.generate_data",
-                                    DG + "CubicMeshPDEStatio.sample_in_omega_domain", DG + "CubicMeshPDEStatio.sample_in_omega_border_domain"])
+                                    DG + "CubicMeshPDEStatio.sample_in_omega_domain", DG + "CubicMeshPDEStatio.sample_in_omega_border_domain"],
+                        native_fallback=lambda: _safe_wf())
 
 
 def ctor_sentinels(cls, dim, prefix="C08"):
@@ -244,62 +245,69 @@ def batch_shapes(cls, dim, cartesian=True):
             rec = ex.construct("DataGeneratorODE", [Key(), nt, tmin, tmax, bt, "uniform"], {}, pre0)
         else:
             rec = space_gen(ex, cls, dim, "uniform", True, pre0, cartesian=cartesian)
-        (o,) = ex.call_method(rec, "get_batch")
-        new, batch = o.value
-        r = z3.Int("r")
-        pre = pre0 + list(o.pc) + [r >= 0, c_ >= 0, f_ >= 0]
-        goals, pts_ = [], []
-        if cls == "DataGeneratorODE":
-            tb = batch.fields["temporal_batch"]
-            goals += [("shape", z3.And(zint(tb.shape[0]) == bt, z3.BoolVal(len(tb.shape) == 1))),
-                      ("in_domain", z3.Implies(r < bt, z3.And(zreal(tb.elem(r)) >= tmin, zreal(tb.elem(r)) <= tmax)))]
-        elif cls == "CubicMeshPDEStatio":
-            ib, bd = batch.fields["inside_batch"], batch.fields["border_batch"]
-            lo = xmin if dim == 1 else z3.If(c_ == 0, xmin, ymin)
-            hi = xmax if dim == 1 else z3.If(c_ == 0, xmax, ymax)
-            goals += [("inside_shape", z3.And(zint(ib.shape[0]) == bx, zint(ib.shape[1]) == dim)),
-                      ("inside_in_box", z3.Implies(z3.And(r < bx, c_ < dim), z3.And(zreal(ib.elem(r, c_)) >= lo, zreal(ib.elem(r, c_)) <= hi)))]
-            if dim == 1:
-                goals += [("border_shape", z3.And(zint(bd.shape[0]) == 1, zint(bd.shape[1]) == 1, zint(bd.shape[2]) == 2)),
-                          ("border_is_end_points", z3.And(zreal(bd.elem(0, 0, 0)) == xmin, zreal(bd.elem(0, 0, 1)) == xmax))]
+        outs_ = [o for o in ex.call_method(rec, "get_batch") if o.kind == "return"]
+        if not outs_:
+            raise pyvc.Unsupported("get_batch: no normal return")
+        last = None
+        for o in outs_:           # one outcome per path the code distinguishes (a branch on symbolic sizes, ...)
+            new, batch = o.value
+            r = z3.Int("r")
+            pre = pre0 + list(o.pc) + [r >= 0, c_ >= 0, f_ >= 0]
+            goals, pts_ = [], []
+            if cls == "DataGeneratorODE":
+                tb = batch.fields["temporal_batch"]
+                goals += [("shape", z3.And(zint(tb.shape[0]) == bt, z3.BoolVal(len(tb.shape) == 1))),
+                          ("in_domain", z3.Implies(r < bt, z3.And(zreal(tb.elem(r)) >= tmin, zreal(tb.elem(r)) <= tmax)))]
+            elif cls == "CubicMeshPDEStatio":
+                ib, bd = batch.fields["inside_batch"], batch.fields["border_batch"]
+                lo = xmin if dim == 1 else z3.If(c_ == 0, xmin, ymin)
+                hi = xmax if dim == 1 else z3.If(c_ == 0, xmax, ymax)
+                goals += [("inside_shape", z3.And(zint(ib.shape[0]) == bx, zint(ib.shape[1]) == dim)),
+                          ("inside_in_box", z3.Implies(z3.And(r < bx, c_ < dim), z3.And(zreal(ib.elem(r, c_)) >= lo, zreal(ib.elem(r, c_)) <= hi)))]
+                if dim == 1:
+                    goals += [("border_shape", z3.And(zint(bd.shape[0]) == 1, zint(bd.shape[1]) == 1, zint(bd.shape[2]) == 2)),
+                              ("border_is_end_points", z3.And(zreal(bd.elem(0, 0, 0)) == xmin, zreal(bd.elem(0, 0, 1)) == xmax))]
+                else:
+                    goals += [("border_shape", z3.And(zint(bd.shape[0]) == bb, zint(bd.shape[1]) == 2, zint(bd.shape[2]) == 4)),
+                              ("border_rows_on_facets", z3.Implies(r < bb, z3.And(zreal(bd.elem(r, 0, 0)) == xmin, zreal(bd.elem(r, 0, 1)) == xmax,
+                                                                                 zreal(bd.elem(r, 1, 2)) == ymin, zreal(bd.elem(r, 1, 3)) == ymax)))]
             else:
-                goals += [("border_shape", z3.And(zint(bd.shape[0]) == bb, zint(bd.shape[1]) == 2, zint(bd.shape[2]) == 4)),
-                          ("border_rows_on_facets", z3.Implies(r < bb, z3.And(zreal(bd.elem(r, 0, 0)) == xmin, zreal(bd.elem(r, 0, 1)) == xmax,
-                                                                             zreal(bd.elem(r, 1, 2)) == ymin, zreal(bd.elem(r, 1, 3)) == ymax)))]
-        else:
-            tx, tdx = batch.fields["times_x_inside_batch"], batch.fields["times_x_border_batch"]
-            rows_in = bt * bx if cartesian else bt
-            rows_bd = (bt * (1 if dim == 1 else bb)) if (cartesian or dim == 1) else bt
-            goals += [("interior_shape", z3.And(zint(tx.shape[0]) == rows_in, zint(tx.shape[1]) == 1 + dim)),
-                      ("border_shape", z3.And(zint(tdx.shape[0]) == rows_bd, zint(tdx.shape[1]) == 1 + dim,
-                                              zint(tdx.shape[2]) == 2 * dim))]
-            # content: column 0 is a time of the interval, the other columns a point of the box / of the facet
-            lo = xmin if dim == 1 else z3.If(c_ == 0, xmin, ymin)
-            hi = xmax if dim == 1 else z3.If(c_ == 0, xmax, ymax)
-            goals += [("interior_time_column_in_interval", z3.Implies(r < rows_in, z3.And(zreal(tx.elem(r, 0)) >= tmin, zreal(tx.elem(r, 0)) <= tmax))),
-                      ("interior_space_columns_in_box", z3.Implies(z3.And(r < rows_in, c_ < dim),
-                                                                   z3.And(zreal(tx.elem(r, 1 + c_)) >= lo, zreal(tx.elem(r, 1 + c_)) <= hi))),
-                      ("border_time_row_in_interval", z3.Implies(z3.And(r < rows_bd, f_ < 2 * dim),
-                                                                 z3.And(zreal(tdx.elem(r, 0, f_)) >= tmin, zreal(tdx.elem(r, 0, f_)) <= tmax)))]
-            if dim == 1:
-                goals += [("border_is_end_points", z3.Implies(r < rows_bd, z3.And(zreal(tdx.elem(r, 1, 0)) == xmin, zreal(tdx.elem(r, 1, 1)) == xmax)))]
-            else:
-                goals += [("border_rows_on_facets", z3.Implies(r < rows_bd, z3.And(
-                    zreal(tdx.elem(r, 1, 0)) == xmin, zreal(tdx.elem(r, 1, 1)) == xmax, zreal(tdx.elem(r, 2, 2)) == ymin, zreal(tdx.elem(r, 2, 3)) == ymax))),
-                          ("border_free_coordinates_in_range", z3.Implies(r < rows_bd, z3.And(
-                              zreal(tdx.elem(r, 2, 0)) >= ymin, zreal(tdx.elem(r, 2, 0)) <= ymax, zreal(tdx.elem(r, 2, 1)) >= ymin, zreal(tdx.elem(r, 2, 1)) <= ymax,
-                              zreal(tdx.elem(r, 1, 2)) >= xmin, zreal(tdx.elem(r, 1, 2)) <= xmax, zreal(tdx.elem(r, 1, 3)) >= xmin, zreal(tdx.elem(r, 1, 3)) <= xmax)))]
-        # range instances of the uniform contract at every index the goals can touch (through the permutations)
-        ax = []
-        perms = getattr(ex, "perms", [])
-        for (lo_, hi_, f) in getattr(ex, "uniforms", []):
-            v = z3.Int("anyidx")
-            zeros = [z3.IntVal(0)] * (f.arity() - 1)
-            ax.append(z3.ForAll([v], z3.And(lo_ <= f(v, *zeros), f(v, *zeros) <= hi_)))
-        for p in perms:
-            v = z3.Int("anyidx2")
-            ax.append(z3.ForAll([v], z3.Implies(z3.And(v >= 0, v < zint(p[2])), z3.And(p[0](v) >= 0, p[0](v) < zint(p[2])))))
-        return done(name, goals, pre, ex, t0, ax)
+                tx, tdx = batch.fields["times_x_inside_batch"], batch.fields["times_x_border_batch"]
+                rows_in = bt * bx if cartesian else bt
+                rows_bd = (bt * (1 if dim == 1 else bb)) if (cartesian or dim == 1) else bt
+                goals += [("interior_shape", z3.And(zint(tx.shape[0]) == rows_in, zint(tx.shape[1]) == 1 + dim)),
+                          ("border_shape", z3.And(zint(tdx.shape[0]) == rows_bd, zint(tdx.shape[1]) == 1 + dim,
+                                                  zint(tdx.shape[2]) == 2 * dim))]
+                # content: column 0 is a time of the interval, the other columns a point of the box / of the facet
+                lo = xmin if dim == 1 else z3.If(c_ == 0, xmin, ymin)
+                hi = xmax if dim == 1 else z3.If(c_ == 0, xmax, ymax)
+                goals += [("interior_time_column_in_interval", z3.Implies(r < rows_in, z3.And(zreal(tx.elem(r, 0)) >= tmin, zreal(tx.elem(r, 0)) <= tmax))),
+                          ("interior_space_columns_in_box", z3.Implies(z3.And(r < rows_in, c_ < dim),
+                                                                       z3.And(zreal(tx.elem(r, 1 + c_)) >= lo, zreal(tx.elem(r, 1 + c_)) <= hi))),
+                          ("border_time_row_in_interval", z3.Implies(z3.And(r < rows_bd, f_ < 2 * dim),
+                                                                     z3.And(zreal(tdx.elem(r, 0, f_)) >= tmin, zreal(tdx.elem(r, 0, f_)) <= tmax)))]
+                if dim == 1:
+                    goals += [("border_is_end_points", z3.Implies(r < rows_bd, z3.And(zreal(tdx.elem(r, 1, 0)) == xmin, zreal(tdx.elem(r, 1, 1)) == xmax)))]
+                else:
+                    goals += [("border_rows_on_facets", z3.Implies(r < rows_bd, z3.And(
+                        zreal(tdx.elem(r, 1, 0)) == xmin, zreal(tdx.elem(r, 1, 1)) == xmax, zreal(tdx.elem(r, 2, 2)) == ymin, zreal(tdx.elem(r, 2, 3)) == ymax))),
+                              ("border_free_coordinates_in_range", z3.Implies(r < rows_bd, z3.And(
+                                  zreal(tdx.elem(r, 2, 0)) >= ymin, zreal(tdx.elem(r, 2, 0)) <= ymax, zreal(tdx.elem(r, 2, 1)) >= ymin, zreal(tdx.elem(r, 2, 1)) <= ymax,
+                                  zreal(tdx.elem(r, 1, 2)) >= xmin, zreal(tdx.elem(r, 1, 2)) <= xmax, zreal(tdx.elem(r, 1, 3)) >= xmin, zreal(tdx.elem(r, 1, 3)) <= xmax)))]
+            # range instances of the uniform contract at every index the goals can touch (through the permutations)
+            ax = []
+            perms = getattr(ex, "perms", [])
+            for (lo_, hi_, f) in getattr(ex, "uniforms", []):
+                v = z3.Int("anyidx")
+                zeros = [z3.IntVal(0)] * (f.arity() - 1)
+                ax.append(z3.ForAll([v], z3.And(lo_ <= f(v, *zeros), f(v, *zeros) <= hi_)))
+            for p in perms:
+                v = z3.Int("anyidx2")
+                ax.append(z3.ForAll([v], z3.Implies(z3.And(v >= 0, v < zint(p[2])), z3.And(p[0](v) >= 0, p[0](v) < zint(p[2])))))
+            last = done(name, goals, pre, ex, t0, ax)
+            if last.get("status") != "discharged":
+                return last
+        return last
     return FnObligation(name, run, [DG + f"{cls}.get_batch"])
 
 
@@ -405,6 +413,13 @@ def native_refined_in_domain():
     return None
 
 
+def _safe_wf():
+    try:
+        return native_wf()
+    except Exception:
+        return None
+
+
 def native_wf():
     import numpy as np, jax
     from jinns.data._DataGenerators import CubicMeshPDEStatio, CubicMeshPDENonStatio
@@ -441,11 +456,12 @@ def native_wf():
         except Exception:
             pass
     # grid sampling stores exactly the requested number of points (or refuses the request)
-    for n_req in (9, 10, 12, 16, 20):
-        for dim in (1, 2):
+    for n_req in list(range(2, 131)) + [154, 196, 197]:
+        for dim in ((1, 2) if n_req in (9, 10, 12, 16, 20) else (1,)):
             try:
+                box = ((0.0, 1.0) if n_req % 2 else (-2.0, 3.0)) if dim == 1 else (0.0, 1.0)
                 g = CubicMeshPDEStatio(key=jax.random.PRNGKey(0), n=n_req, nb=None, omega_batch_size=2, omega_border_batch_size=None, dim=dim,
-                                       min_pts=(0.0,) * dim, max_pts=(1.0,) * dim, method="grid")
+                                       min_pts=(box[0],) * dim, max_pts=(box[1],) * dim, method="grid")
             except Exception:
                 continue
             if tuple(np.asarray(g.omega).shape) != (n_req, dim):
